@@ -338,7 +338,10 @@ def replay(path):
         cf = os.path.join(sdir, 'case.ndjson')
         open(cf, 'w').write(v['case'] + '\n')
         out = os.path.join(sdir, 'out.json')
-        subprocess.run([harness, 'run', '-props', v['property'], '-in', cf, '-out', out, '-workers', '1'], check=False)
+        cmd = [harness, 'run', '-props', v.get('props') or v['property'], '-in', cf, '-out', out, '-workers', '1']
+        if v.get('opts'):
+            cmd += ['-opts', v['opts']]
+        subprocess.run(cmd, check=False)
         s = json.load(open(out))
         hits = [x for x in (s.get('violations') or []) if x['property'] == v['property']]
         for x in hits:
